@@ -1,6 +1,7 @@
 package rules
 
 import (
+	"fmt"
 	"go/token"
 	"go/types"
 	"sort"
@@ -667,9 +668,14 @@ func detDepthMemo(p *core.Program, c []*ssa.Function) (bool, string) {
 	if !dok {
 		return false, dwhy
 	}
+	memoWhy := ""
 	for _, f := range c {
-		if mok, mwhy := detMemo2(f); mok {
+		mok, mwhy := detMemo2(f)
+		if mok {
 			return true, dwhy + "; fan-out " + string(rune('0'+fan)) + " made linear by " + mwhy
+		}
+		if mwhy != "no memo" {
+			memoWhy = " (" + mwhy + ")"
 		}
 	}
 	// fan-out through a loop over children (tree recursion) is linear in the tree
@@ -682,7 +688,7 @@ func detDepthMemo(p *core.Program, c []*ssa.Function) (bool, string) {
 			}
 		}
 	}
-	return false, "fan-out " + string(rune('0'+fan)) + " with only a depth bound is exponential in the depth"
+	return false, "fan-out " + string(rune('0'+fan)) + " with only a depth bound is exponential in the depth" + memoWhy
 }
 
 // detMemo2: memo keyed by the first parameter, consulted at entry (possibly under `cache != nil`).
@@ -707,6 +713,33 @@ func detMemo2(f *ssa.Function) (bool, string) {
 	})
 	if !stored {
 		return false, "memo never filled"
+	}
+	// the memo is filled whenever the value was computed: the store has no condition beyond those of the
+	// computation itself, except the 'is there a cache' test (a store only at some depths leaves shared
+	// sub-expressions to be re-expanded once per path)
+	cond := ""
+	core.InstrsOf(f, func(in ssa.Instruction) {
+		mu, ok := in.(*ssa.MapUpdate)
+		if !ok || core.Canon(mu.Map) != core.Canon(memo) || mu.Key != ssa.Value(f.Params[0]) {
+			return
+		}
+		base := map[string]bool{}
+		for _, o := range core.Origins(mu.Value) {
+			if c, ok := o.(*ssa.Call); ok && c.Parent() == f {
+				for _, g := range mandatoryGuards(f, c.Block()) {
+					base[g] = true
+				}
+			}
+		}
+		for _, g := range mandatoryGuards(f, mu.Block()) {
+			if base[g] || (strings.Contains(g, "nil") && strings.HasPrefix(g, "T:")) {
+				continue
+			}
+			cond = g
+		}
+	})
+	if cond != "" {
+		return false, "the memo is filled only if " + cond + ": other results are recomputed on every path that reaches them"
 	}
 	return true, "a per-value memo (" + core.Canon(memo) + ")"
 }
@@ -871,6 +904,59 @@ func c17Caps(r *core.Run) {
 		}
 	}
 	r.Floor("C17.CAPS", "canonicalisation call sites in pkg/diff", nB, 1)
+	// the structural matcher runs the same loop/SCEV/canonicalisation machinery: it is constructed only when
+	// neither side carries the size guard's marker
+	marker := ""
+	for _, fn := range p.FuncsIn("pkg/diff") {
+		core.InstrsOf(fn, func(in ssa.Instruction) {
+			if st, ok := in.(*ssa.Store); ok {
+				if fa, ok := st.Addr.(*ssa.FieldAddr); ok && core.FieldName(fa.X.Type(), fa.Field) == "Fingerprint" {
+					if sv, isC := core.ConstString(st.Val); isC && sv != "" {
+						marker = sv
+					}
+				}
+			}
+		})
+	}
+	nZ := 0
+	for _, fn := range p.Funcs {
+		if !p.IsProdFunc(fn) || strings.HasSuffix(fn.Pkg.Pkg.Path(), "/pkg/diff") {
+			continue
+		}
+		for _, ci := range core.Calls(fn, func(name string, _ *ssa.CallCommon) bool { return strings.HasSuffix(name, "/pkg/diff.NewZipper") }) {
+			nZ++
+			for side := 0; side < 2; side++ {
+				var res ssa.Value // the FingerprintResult this side's function was taken from
+				for _, o := range core.Origins(ci.Common().Args[side]) {
+					if c, ok := o.(*ssa.Call); ok && len(c.Call.Args) > 0 {
+						res = slotOf(c.Call.Args[0])
+					}
+				}
+				construct := fmt.Sprintf("%s#matcher-not-on-oversized(arg%d)", core.FuncName(fn), side)
+				if res == nil || marker == "" {
+					r.Fail("C17.CAPS", construct, ci.Pos(), "cannot relate the matcher's argument to a fingerprint result / no size marker found")
+					continue
+				}
+				atom := func(cond ssa.Value) (bool, bool) {
+					op, x, y, neg, ok := core.Compare(cond)
+					if !ok || neg || (op != token.EQL && op != token.NEQ) {
+						return false, false
+					}
+					for _, pair := range [][2]ssa.Value{{x, y}, {y, x}} {
+						base, isF := core.FieldLoad(pair[0], "Fingerprint")
+						sv, isC := core.ConstString(pair[1])
+						if isF && isC && sv == marker && slotOf(base) == res {
+							return true, op == token.NEQ
+						}
+					}
+					return false, false
+				}
+				ok1, n1, path := core.MustPass(fn, ci.Block(), atom)
+				r.Check(ok1 && n1 > 0, "C17.CAPS", construct, ci.Pos(), "the structural matcher is built only when this side is not marked "+marker, "the structural matcher (loop analysis, SCEV, instruction matching) can run on a function the size guard rejected ("+core.FmtPath(path)+"): oversized input is processed instead of refused")
+			}
+		}
+	}
+	r.Floor("C17.CAPS", "constructions of the structural matcher outside pkg/diff", nZ, 1)
 
 	// string-literal byte caps in the topology extractor
 	nS := 0
@@ -964,4 +1050,16 @@ func c17Caps(r *core.Run) {
 		})
 	}
 	r.Floor("C17.CAPS", "expression renderings inside the renamer", nD, 1)
+}
+
+
+// slotOf: the local variable a value was loaded from (the value itself otherwise).
+func slotOf(v ssa.Value) ssa.Value {
+	v = core.Unwrap(v)
+	if u, ok := v.(*ssa.UnOp); ok && u.Op == token.MUL {
+		if a, ok := u.X.(*ssa.Alloc); ok {
+			return a
+		}
+	}
+	return v
 }
